@@ -40,7 +40,7 @@ def run(repo, res):
     assist = repo.module_func(ASSIST, 'assist')
     from .. import api_model
     recs = api_model.assist_model(repo)
-    n = api_model.apply(res, recs, {'prefix': 'C12-R1', 'shape': 'C12-R2', 'sorted': 'C12-R2', 'unique': 'C12-R2',
+    n = api_model.apply(res, recs, {'prefix': 'C12-R1', 'shape': 'C12-R2', 'sorted': 'C12-R2', 'unique': 'C12-R2', 'ident': 'C12-R2',
                                     'pkg': 'C12-R2'}, ASSIST, assist.lineno)
     res.count('assist_scenarios', n, floor=120)
     # a sink that removes duplicates makes the proposals duplicate-free whatever attr_list returns; otherwise every
